@@ -72,7 +72,6 @@ Qed.
 
 (** * B. Certificates on the abstract (finite) instance *)
 
-Definition astep' (s : astate) : list astate := map snd (astep s).
 
 (** The reachable set, computed by the untrusted exploration of Lts.v; only its closure is used. *)
 Definition RA : list astate := fst (reach_set astep' enc 3000 ainit).
@@ -81,7 +80,6 @@ Definition is_upanic (p : upc) := match p with UPanic => true | _ => false end.
 Definition is_cpanic (p : clpc) := match p with CPanic => true | _ => false end.
 Definition is_retok (p : upc) := match p with URetOk => true | _ => false end.
 Definition is_uidle (p : upc) := match p with UIdle => true | _ => false end.
-Definition is_none {A} (o : option A) := match o with None => true | Some _ => false end.
 
 (** Safety predicates checked on every reachable abstract state. *)
 Definition safe_nopanic (s : astate) : bool := negb (is_upanic (u _ _ s)) && negb (is_cpanic (cl _ _ s)).
@@ -98,17 +96,14 @@ Definition safe_idle_clean (s : astate) : bool :=
 Definition safe_all (s : astate) : bool :=
   safe_nopanic s && safe_own s && safe_one_outstanding s && safe_retry s && safe_closed s && safe_idle_clean s.
 
-Definition cert_safety : bool :=
-  inset astate enc (set_of astate enc RA) ainit && closed astep' enc RA && forallb safe_all RA.
-
-Lemma cert_safety_ok : cert_safety = true.
-Proof. Time vm_compute. reflexivity. Time Qed.
+Lemma cert_init : inset astate enc (set_of astate enc RA) ainit = true.
+Proof. vm_compute. reflexivity. Qed.
+Lemma cert_closed : closed astep' enc RA = true.
+Proof. vm_compute. reflexivity. Qed.
+Lemma cert_safe : forallb safe_all RA = true.
+Proof. vm_compute. reflexivity. Qed.
 
 (** ** Termination: without new calls and new Close invocations every execution is finite *)
-
-Definition is_start (l : label) : bool := match l with LNewCall _ | LCloseStart => true | _ => false end.
-Definition astepF (s : astate) : list astate :=
-  map snd (filter (fun x => negb (is_start (fst x))) (astep s)).
 
 (** Untrusted computation of a ranking: height of a state in the (acyclic) graph of [astepF]. *)
 Fixpoint height (step : astate -> list astate) (fuel : nat) (s : astate) (m : PM.t nat) : PM.t nat * nat :=
@@ -127,54 +122,18 @@ Fixpoint height (step : astate -> list astate) (fuel : nat) (s : astate) (m : PM
 Definition HF : PM.t nat := fold_left (fun m s => fst (height astepF 4000 s m)) RA (PM.empty nat).
 Definition rankF (s : astate) : nat := match PM.find (enc s) HF with Some h => h | None => 0 end.
 
-Definition cert_term : bool := decreasing astepF rankF RA.
-Lemma cert_term_ok : cert_term = true.
-Proof. Time vm_compute. reflexivity. Time Qed.
-
+Lemma cert_term_dec : decreasing astepF rankF RA = true.
+Proof. vm_compute. reflexivity. Qed.
+Lemma cert_term_bound : forallb (fun s => rankF s <=? 127) RA = true.
+Proof. vm_compute. reflexivity. Qed.
 
 (** ** Quiescence: where the goroutines are when none of them can move by itself *)
 
-(** Steps that need nothing from the outside: goroutine-internal steps, the hooks, the dialer
-    returning, reads of data already received, and the failures forced by a locally closed stream.
-    Excluded: the transport completing a write, the server replying, the network failing, the
-    caller's context being cancelled, new calls, new Close invocations. *)
-Definition is_own (l : label) : bool :=
-  match l with
-  | LTau _ | LHookLoaded | LHookSent | LDial _ | LDrop | LRead | LRet _ | LWrite WrClosed => true
-  | _ => false
-  end.
-Definition astepQ (s : astate) : list astate := map snd (filter (fun x => is_own (fst x)) (astep s)).
-
-Definition conn_alive (c : conn bool) : bool := is_none (cctx _ c) && negb (cclosed _ c) && negb (sclosed _ c).
-(** a live connection at rest: readloop parked in Recv, writeloop parked in its select or in Send *)
-Definition conn_parked (c : conn bool) : bool :=
-  conn_alive c && match rl _ c with RlRecv => true | _ => false end && is_none (cwire _ c)
-  && match wl _ c with WlSelect | WlSend => true | _ => false end.
-(** a terminated connection whose goroutines are gone *)
-Definition conn_gone (c : conn bool) : bool :=
-  negb (is_none (cctx _ c)) && sclosed _ c && rxclosed _ c
-  && match rl _ c with RlDone => true | _ => false end && match wl _ c with WlDone => true | _ => false end.
-
-Definition quiescent_ok (s : astate) : bool :=
-  let c := cn _ _ s in
-  match cl _ _ s with CIdle => true | _ => false end
-  && (if hasconn _ _ s then conn_parked c || conn_gone c else true)
-  && (if ccl _ _ s && hasconn _ _ s then conn_gone c else true)
-  && match u _ _ s with
-     | UIdle => true
-     | S4 => hasconn _ _ s && conn_parked c && match wl _ c with WlSend => true | _ => false end && negb (uctx _ _ s)
-     | V2 => hasconn _ _ s && conn_parked c && negb (uctx _ _ s)
-     | _ => false
-     end.
-
-Definition cert_quiescent : bool :=
-  forallb (fun s => match astepQ s with [] => quiescent_ok s | _ => true end) RA.
-Lemma cert_quiescent_ok : cert_quiescent = true.
-Proof. Time vm_compute. reflexivity. Time Qed.
+Lemma cert_quiescent : forallb (fun s => match astepQ s with [] => quiescent_ok _ _ s | _ => true end) RA = true.
+Proof. vm_compute. reflexivity. Qed.
 
 (** ** Abandoned connections wind up by themselves *)
 
-Definition aostep' (o : orphan bool) : list (orphan bool) := map snd (aostep o).
 Definition is_R3 (p : upc) := match p with R3 => true | _ => false end.
 Definition OI : list (orphan bool) := map (orphan_of _ _) (filter (fun s => is_R3 (u _ _ s)) RA).
 Definition OI_set : PS.t := set_of _ oenc OI.
@@ -198,31 +157,18 @@ Fixpoint oheight (fuel : nat) (o : orphan bool) (m : PM.t nat) : PM.t nat * nat 
 Definition HO : PM.t nat := fold_left (fun m o => fst (oheight 500 o m)) RO (PM.empty nat).
 Definition rankO (o : orphan bool) : nat := match PM.find (oenc o) HO with Some h => h | None => 0 end.
 
-Definition orphan_gone (o : orphan bool) : bool :=
-  match snd o with CIdle => true | _ => false end && sclosed _ (fst o)
-  && match rl _ (fst o) with RlDone => true | _ => false end && match wl _ (fst o) with WlDone => true | _ => false end.
-
-Definition cert_orphan : bool :=
-  forallb (inset _ oenc (set_of _ oenc RO)) OI
-  && closed aostep' oenc RO
-  && decreasing aostep' rankO RO
-  && forallb (fun o => match aostep' o with [] => orphan_gone o | _ => true end) RO.
-Lemma cert_orphan_ok : cert_orphan = true.
-Proof. Time vm_compute. reflexivity. Time Qed.
+Lemma cert_orphan_init : forallb (inset _ oenc (set_of _ oenc RO)) OI = true.
+Proof. vm_compute. reflexivity. Qed.
+Lemma cert_orphan_closed : closed aostep' oenc RO = true.
+Proof. vm_compute. reflexivity. Qed.
+Lemma cert_orphan_dec : decreasing aostep' rankO RO = true.
+Proof. vm_compute. reflexivity. Qed.
+Lemma cert_orphan_bound : forallb (fun o => rankO o <=? 40) RO = true.
+Proof. vm_compute. reflexivity. Qed.
+Lemma cert_orphan_final : forallb (fun o => match aostep' o with [] => orphan_gone _ o | _ => true end) RO = true.
+Proof. vm_compute. reflexivity. Qed.
 
 (** ** Recovery: a call that starts on a client at rest, in a benign environment, succeeds *)
-
-(** Benign environment: the dialer succeeds, writes complete, the server replies, nothing fails,
-    the context is not cancelled, nobody calls Close.  Executions are followed up to the point
-    where doRountrip returns. *)
-Definition is_benign (l : label) : bool :=
-  match l with
-  | LTau _ | LHookLoaded | LHookSent | LDial true | LDrop | LRead | LWrite WrOk | LWrite WrClosed | LSrv SReply => true
-  | _ => false
-  end.
-Definition returned (p : upc) : bool := match p with URetOk | URetErr => true | _ => false end.
-Definition astepG (s : astate) : list astate :=
-  if returned (u _ _ s) then [] else map snd (filter (fun x => is_benign (fst x)) (astep s)).
 
 (** A client at rest: no call in progress, no goroutine able to move by itself, not closed. *)
 Definition at_rest (s : astate) : bool :=
@@ -236,10 +182,16 @@ Definition RG : list astate := fst (explore _ astepG enc 500 GI1 (set_of _ enc G
 Definition HG : PM.t nat := fold_left (fun m s => fst (height astepG 1000 s m)) RG (PM.empty nat).
 Definition rankG (s : astate) : nat := match PM.find (enc s) HG with Some h => h | None => 0 end.
 
-Definition cert_recover : bool :=
-  forallb (inset _ enc (set_of _ enc RG)) GI
-  && closed astepG enc RG
-  && decreasing astepG rankG RG
-  && forallb (fun s => match astepG s with [] => is_retok (u _ _ s) | _ => true end) RG.
-Lemma cert_recover_ok : cert_recover = true.
-Proof. Time vm_compute. reflexivity. Time Qed.
+Lemma cert_recover_init : forallb (inset _ enc (set_of _ enc RG)) GI = true.
+Proof. vm_compute. reflexivity. Qed.
+Lemma cert_recover_closed : closed astepG enc RG = true.
+Proof. vm_compute. reflexivity. Qed.
+Lemma cert_recover_dec : decreasing astepG rankG RG = true.
+Proof. vm_compute. reflexivity. Qed.
+Lemma cert_recover_bound : forallb (fun s => rankG s <=? 24) RG = true.
+Proof. vm_compute. reflexivity. Qed.
+Lemma cert_recover_final : forallb (fun s => match astepG s with [] => is_retok (u _ _ s) | _ => true end) RG = true.
+Proof. vm_compute. reflexivity. Qed.
+
+(** The computed sets and rankings are never unfolded outside this file. *)
+Global Opaque RA HF OI1 RO HO GI1 RG HG.
